@@ -49,7 +49,8 @@ S == IF Sched = "LA" THEN LA ELSE LAResend
 
 VARIABLE k
 RInit == Init /\ k = 0
-RNext == k < Len(S) /\ k' = k + 1 /\ Next /\ act' = S[k + 1]
+RNext == \/ k < Len(S) /\ k' = k + 1 /\ Next /\ act' = S[k + 1]
+         \/ k = Len(S) /\ UNCHANGED <<vars, k>>              \* with CHECK_DEADLOCK: a deadlock = a step that cannot be followed
 Followed == k = Len(S)
 NotFollowed == ~Followed
 \* the repaired model follows LAResend to its end, where the solo writer has committed
